@@ -52,6 +52,15 @@ impl Handshake {
         Handshake { info_hash, peer_id }
     }
 
+    /// Whether the buffer starts like a handshake: length of the protocol string followed by
+    /// that part of it which overlaps the length and ID fields of ordinary messages.
+    pub fn starts(buf: &[u8]) -> bool {
+        let overlap = Handshake::LEN_SIZE + 3;
+        buf.len() > overlap
+            && buf[0] as usize == Handshake::PROTOCOL_ID.len()
+            && buf[1..=overlap] == Handshake::PROTOCOL_ID[..overlap]
+    }
+
     pub fn check(
         crs: &Cursor<&[u8]>,
         protocol_id_length: usize,
